@@ -357,11 +357,17 @@ def make_timedelta(days=0, seconds=0, microseconds=0, milliseconds=0, minutes=0,
                 total = total + val.iz * unit
             else:
                 e = E.cur()
-                u = z3.Int('td_us_%d' % e.nfresh)
-                e.nfresh += 1
-                exact = val.r * unit
-                slack = z3.RealVal(1) / 2 + z3.RealVal(1) / (2 ** 20)
-                e.add(z3.ToReal(u) - exact <= slack, exact - z3.ToReal(u) <= slack)
+                rterm = z3.simplify(val.r)
+                key = ('td', rterm.get_id(), unit)
+                hit = e.uf_cache.get(key)
+                u = hit[1] if hit is not None else None
+                if u is None:
+                    u = z3.Int('td_us_%d' % e.nfresh)
+                    e.nfresh += 1
+                    exact = val.r * unit
+                    slack = z3.RealVal(1) / 2 + z3.RealVal(1) / (2 ** 20)
+                    e.add(z3.ToReal(u) - exact <= slack, exact - z3.ToReal(u) <= slack)
+                    e.uf_cache[key] = (rterm, u)   # same float -> same microsecond count (the term is kept alive: ids are reused)
                 total = total + u
         elif isinstance(val, float):
             if val == int(val):
@@ -453,10 +459,19 @@ def _dateutil_stub(timestr, *a, **kw):
     log = getattr(e, 'dateutil_log', None)
     if log is None:
         log = e.dateutil_log = []
+    key = ('dateutil',) + tuple(c if isinstance(c, int) else ('z', c.get_id()) for c in timestr.cps)
+    if key in e.uf_cache:          # the same text is the same date (or none) every time it is asked on a path
+        d = e.uf_cache[key]
+        log.append((timestr, d))
+        if d is None:
+            raise ValueError('String does not contain a date (dateutil stub)')
+        return d
     if len(timestr) == 0 or e.choose(2) == 0:
+        e.uf_cache[key] = None
         log.append((timestr, None))
         raise ValueError('String does not contain a date (dateutil stub)')
     d = fresh_datetime_ord(e, 'du%d' % len(log), 1, MAXORD, with_time=True)
+    e.uf_cache[key] = d
     log.append((timestr, d))
     return d
 
